@@ -19,6 +19,7 @@ import (
 	"context"
 	"crypto/sha256"
 	"encoding/json"
+	"errors"
 	"fmt"
 	"image/color"
 	"net"
@@ -544,6 +545,18 @@ func c20BuildCU(m c20Msg) *lnwire.ChannelUpdate1 {
 		u.HtlcMaximumMsat = 50
 	case "maxgtcap":
 		u.HtlcMaximumMsat = lnwire.MilliSatoshi(2 * c20FundSats * 1000)
+	case "disabled": // validly signed with the disable bit: consistent, another content
+		u.ChannelFlags |= lnwire.ChanUpdateDisabled
+	case "capeq": // exactly the capacity: consistent
+		u.HtlcMaximumMsat = lnwire.MilliSatoshi(c20FundSats * 1000)
+	case "capplus1":
+		u.HtlcMaximumMsat = lnwire.MilliSatoshi(c20FundSats*1000 + 1)
+	case "capplus500":
+		u.HtlcMaximumMsat = lnwire.MilliSatoshi(c20FundSats*1000 + 500)
+	case "capplus999":
+		u.HtlcMaximumMsat = lnwire.MilliSatoshi(c20FundSats*1000 + 999)
+	case "capplus1000":
+		u.HtlcMaximumMsat = lnwire.MilliSatoshi(c20FundSats*1000 + 1000)
 	default:
 		panic("c20: unknown CU fields " + m.Fields)
 	}
@@ -651,7 +664,8 @@ func c20Build(m c20Msg) lnwire.Message {
 type c20Graph struct {
 	Ch   [2]int    `json:"ch"`   // channel c in the graph
 	Keys [2][2]int `json:"keys"` // its end points as node indices (0 unknown key, 9 foreign)
-	Pol  [4][2]int `json:"pol"`  // (c1,d0) (c1,d1) (c2,d0) (c2,d1): [ts, fee]
+	Pol  [4][3]int `json:"pol"`  // (c1,d0) (c1,d1) (c2,d0) (c2,d1): [ts, fee, max_htlc class]
+	Zk   [2][2]int `json:"zk"`   // node keys recorded with the zombie entry of c (1 = non-blank)
 	Nd   [3]int    `json:"nd"`   // timestamp of the stored announcement of node n
 	Zo   [2]int    `json:"zo"`   // zombie index
 	Cl   [2]int    `json:"cl"`   // closed-scid index
@@ -670,15 +684,29 @@ func c20NodeIdx(pk [33]byte) int {
 	return 9
 }
 
-func c20PolOf(p *models.ChannelEdgePolicy) [2]int {
+func c20PolOf(p *models.ChannelEdgePolicy) [3]int {
 	if p == nil {
-		return [2]int{0, 0}
+		return [3]int{0, 0, 0}
 	}
 	fee := int(p.FeeBaseMSat) - 1000
 	if fee < 1 || fee > 2 {
 		fee = 99
 	}
-	return [2]int{c20ModelTs(p.LastUpdate), fee}
+	mx := 99
+	switch p.MaxHTLC {
+	case 200:
+		mx = 1
+	case lnwire.MilliSatoshi(c20FundSats * 1000):
+		mx = 2
+	}
+	if p.ChannelFlags.IsDisabled() {
+		if mx == 1 {
+			mx = 3
+		} else {
+			mx = 99
+		}
+	}
+	return [3]int{c20ModelTs(p.LastUpdate), fee, mx}
 }
 
 func (e *c20Env) stashLen(scid lnwire.ShortChannelID) (total, unprocessed int) {
@@ -709,6 +737,15 @@ func (e *c20Env) project() c20Graph {
 		}
 		if z, _ := e.graph.IsZombieEdge(scid); z {
 			g.Zo[c-1] = 1
+		}
+		if errors.Is(err, graphdb.ErrZombieEdge) && info != nil {
+			var blank [33]byte
+			if info.NodeKey1Bytes != blank {
+				g.Zk[c-1][0] = 1
+			}
+			if info.NodeKey2Bytes != blank {
+				g.Zk[c-1][1] = 1
+			}
 		}
 		if cl, _ := e.closer.IsClosedScid(ctx, scid); cl {
 			g.Cl[c-1] = 1
@@ -861,6 +898,10 @@ type c20Line struct {
 
 // recv executes one message of a schedule and appends the trace lines.
 func (e *c20Env) recv(m c20Msg, out *[]c20Line) {
+	if m.T == "ZO" {
+		e.zombify(m, out)
+		return
+	}
 	msg := c20Build(m)
 	e.sent[msg] = m
 	var scid *lnwire.ShortChannelID
@@ -917,6 +958,30 @@ func (e *c20Env) recv(m c20Msg, out *[]c20Line) {
 			}
 		}
 	}
+}
+
+// zombify is the environment step of a schedule: the channel (not in the
+// graph) enters the zombie index with node keys recorded, the way zombie
+// pruning leaves it (MarkEdgeZombie on the graph store).
+func (e *c20Env) zombify(m c20Msg, out *[]c20Line) {
+	var k1, k2 [33]byte
+	if m.Signer == "both" || m.Signer == "n1" {
+		k1 = c20Pub33(c20NodeKey[c20EndOf(m.C, 0)])
+	}
+	if m.Signer == "both" || m.Signer == "n2" {
+		k2 = c20Pub33(c20NodeKey[c20EndOf(m.C, 1)])
+	}
+	scid := c20Scid(m.C)
+	var err error
+	if e.mockSrc != nil {
+		err = e.mockSrc.MarkEdgeZombie(scid, k1, k2)
+	} else {
+		err = e.cg.MarkEdgeZombie(
+			context.Background(), lnwire.GossipVersion1, scid.ToUint64(), k1, k2,
+		)
+	}
+	e.drain()
+	*out = append(*out, c20Line{A: "Zombify", M: m, Res: c20Res(err), Rs: []string{}, G: e.project(), Rel: e.rel()})
 }
 
 func (e *c20Env) end(trickle time.Duration, out *[]c20Line) {
